@@ -1,1 +1,441 @@
-/-! C02 - property theorems (declared with their full name `C02.<name>`; helper lemmas go to Lemmas/) -/
+import CohdlVerif.Lemmas.C02Lemmas
+
+/-!
+  C02 - property theorems.  Model: CohdlVerif/Model/C02.lean (`typeOf`, `evalSpec`, `lower`, `evalV`),
+  helper lemmas: CohdlVerif/Lemmas/C02Lemmas.lean.
+
+  Full-strength statement of the property on the model:
+
+      C02.lower_correct :  typeOf e = .ok t → defined e env = true →
+                           evalV (lower e) env = inj t (evalSpec e env)           (all e, all widths, all env)
+
+  i.e. the VHDL the back end prints for `e`, read with IEEE numeric_std / std_logic_1164, yields the documented
+  value with the documented type and width (`inj t` fixes kind and length of the VHDL value).
+  Proved here: one lemma per operator and operand-kind pair for the arithmetic operators (all six operators x
+  {Unsigned, Signed} x {vector, Python int on either side}), the documented laws as corollaries, shifts,
+  concatenation, resize, and the induction over `Expr` for the fragment `Frag` (ports, typed constants, Python
+  ints, all arithmetic operators, resize) = `C02.lower_correct_partial`.  Missing for the full statement: the
+  induction cases of the remaining constructors (bitwise, comparison, views, index / slice, boolean operators,
+  if-expression, select_with); for those `evalV (lower e) = inj t (evalSpec e)` is evaluated by the model driver on
+  every explored valuation (answer MODEL-MISMATCH, never seen) instead of being proved.
+-/
+open CohdlVerif.C02
+
+namespace CohdlVerif.C02
+
+/-- the fragment covered by the induction -/
+inductive Frag : Expr → Prop
+  | port (i t) : Frag (.port i t)
+  | lit (t v) : Frag (.lit t v)
+  | intc (k) : Frag (.intc k)
+  | arith (op a b) : Frag a → Frag b → Frag (.arith op a b)
+  | resize (a w) : Frag a → Frag (.resize a w)
+
+def isDivOp (op : AOp) : Prop := op = .div ∨ op = .mod ∨ op = .rem
+
+end CohdlVerif.C02
+
+/-! ### one lemma per operator family and operand-kind pair (all six arithmetic operators each) -/
+
+/-- Unsigned op Unsigned: operands zero-extended, result wraps modulo 2^(documented width) -/
+theorem C02.arith_uns_uns (op : AOp) (wa wb : Nat) (x y : Int)
+    (hx : InRange (.uns wa) (.n x)) (hy : InRange (.uns wb) (.n y)) (hd : isDivOp op → y ≠ 0) :
+    vbin (.ofA op) (inj (.uns wa) (.n x)) (inj (.uns wb) (.n y))
+      = inj (.uns (arithVV op wa wb)) (.n (wrapU (arithVV op wa wb) (aop op x y))) := by
+  obtain ⟨hwa, hx0, hx1⟩ := hx
+  obtain ⟨hwb, hy0, hy1⟩ := hy
+  have ex := enc_of_range hx0 hx1
+  have ey := enc_of_range hy0 hy1
+  have la := enc_lt wa x
+  have lb := enc_lt wb y
+  have ra : ∀ W, wa ≤ W → vresize .uns wa (enc wa x) W = enc wa x := fun W h => vresize_uns h la
+  have rb : ∀ W, wb ≤ W → vresize .uns wb (enc wb y) W = enc wb y := fun W h => vresize_uns h lb
+  unfold isDivOp at hd
+  cases op <;>
+    simp [inj, vbin, VBin.ofA, arithVecVec, VBin.isDiv, vvW, arithVV, dec, nsOp, aop, enc_wrapU,
+      ra, rb, ex, ey, nsDiv_eq, nsRem_eq, nsMod_eq, enc_eq_zero_iff hy0 hy1] <;>
+    simp_all
+
+example : InRange (.uns 4) (.n 13) ∧ InRange (.uns 3) (.n 5) := by
+  constructor <;> simp [InRange]
+
+/-- Signed op Signed: operands sign-extended, result wraps into the two's complement range -/
+theorem C02.arith_sgn_sgn (op : AOp) (wa wb : Nat) (x y : Int)
+    (hx : InRange (.sgn wa) (.n x)) (hy : InRange (.sgn wb) (.n y)) (hd : isDivOp op → y ≠ 0) :
+    vbin (.ofA op) (inj (.sgn wa) (.n x)) (inj (.sgn wb) (.n y))
+      = inj (.sgn (arithVV op wa wb)) (.n (wrapS (arithVV op wa wb) (aop op x y))) := by
+  obtain ⟨hwa, hx0, hx1⟩ := hx
+  obtain ⟨hwb, hy0, hy1⟩ := hy
+  have ex := sInt_enc_id hwa hx0 hx1
+  have ey := sInt_enc_id hwb hy0 hy1
+  have la := enc_lt wa x
+  have lb := enc_lt wb y
+  have ra : ∀ W, wa ≤ W → sInt W (vresize .sgn wa (enc wa x) W) = x := fun W h => by
+    rw [sInt_vresize hwa h la, ex]
+  have rb : ∀ W, wb ≤ W → sInt W (vresize .sgn wb (enc wb y) W) = y := fun W h => by
+    rw [sInt_vresize hwb h lb, ey]
+  unfold isDivOp at hd
+  cases op <;>
+    simp [inj, vbin, VBin.ofA, arithVecVec, VBin.isDiv, vvW, arithVV, dec, nsOp, aop, enc_wrapS,
+      ra, rb, ex, ey, nsDiv_eq, nsRem_eq, nsMod_eq, enc_eq_zero_iff_s hwb hy0 hy1] <;>
+    simp_all
+
+example : InRange (.sgn 4) (.n (-8)) ∧ InRange (.sgn 3) (.n (-1)) := by
+  constructor <;> simp [InRange]
+
+/-- Unsigned op Python int (int representable in the vector's width) -/
+theorem C02.arith_uns_int (op : AOp) (w : Nat) (x k : Int)
+    (hx : InRange (.uns w) (.n x)) (hk : fits (.uns w) k = true) (hd : isDivOp op → k ≠ 0) :
+    vbin (.ofA op) (inj (.uns w) (.n x)) (inj .int (.n k))
+      = inj (.uns (arithVI op w)) (.n (wrapU (arithVI op w) (aop op x k))) := by
+  obtain ⟨hw, hx0, hx1⟩ := hx
+  simp only [fits, Bool.and_eq_true, decide_eq_true_eq] at hk
+  obtain ⟨hk0, hk1⟩ := hk
+  have ex := enc_of_range hx0 hx1
+  have ek := enc_of_range hk0 hk1
+  have hk' : ¬ k < 0 := by omega
+  unfold isDivOp at hd
+  cases op <;>
+    simp [inj, vbin, VBin.ofA, arithVecInt, VBin.isDiv, arithVI, dec, nsOp, aop, enc_wrapU,
+      ex, ek, hk', nsDiv_eq, nsRem_eq, nsMod_eq] <;>
+    simp_all
+
+/-- Python int op Unsigned -/
+theorem C02.arith_int_uns (op : AOp) (w : Nat) (x k : Int)
+    (hx : InRange (.uns w) (.n x)) (hk : fits (.uns w) k = true) (hd : isDivOp op → x ≠ 0) :
+    vbin (.ofA op) (inj .int (.n k)) (inj (.uns w) (.n x))
+      = inj (.uns (arithVI op w)) (.n (wrapU (arithVI op w) (aop op k x))) := by
+  obtain ⟨hw, hx0, hx1⟩ := hx
+  simp only [fits, Bool.and_eq_true, decide_eq_true_eq] at hk
+  obtain ⟨hk0, hk1⟩ := hk
+  have ex := enc_of_range hx0 hx1
+  have ek := enc_of_range hk0 hk1
+  have hk' : ¬ k < 0 := by omega
+  unfold isDivOp at hd
+  cases op <;>
+    simp [inj, vbin, VBin.ofA, arithVecInt, VBin.isDiv, arithVI, dec, nsOp, aop, enc_wrapU,
+      ex, ek, hk', nsDiv_eq, nsRem_eq, nsMod_eq] <;>
+    simp_all
+
+/-- Signed op Python int -/
+theorem C02.arith_sgn_int (op : AOp) (w : Nat) (x k : Int)
+    (hx : InRange (.sgn w) (.n x)) (hk : fits (.sgn w) k = true) (hd : isDivOp op → k ≠ 0) :
+    vbin (.ofA op) (inj (.sgn w) (.n x)) (inj .int (.n k))
+      = inj (.sgn (arithVI op w)) (.n (wrapS (arithVI op w) (aop op x k))) := by
+  obtain ⟨hw, hx0, hx1⟩ := hx
+  simp only [fits, Bool.and_eq_true, decide_eq_true_eq] at hk
+  obtain ⟨hk0, hk1⟩ := hk
+  have ex := sInt_enc_id hw hx0 hx1
+  have ek := sInt_enc_id hw hk0 hk1
+  unfold isDivOp at hd
+  cases op <;>
+    simp [inj, vbin, VBin.ofA, arithVecInt, VBin.isDiv, arithVI, dec, nsOp, aop, enc_wrapS,
+      ex, ek, nsDiv_eq, nsRem_eq, nsMod_eq] <;>
+    simp_all
+
+/-- Python int op Signed -/
+theorem C02.arith_int_sgn (op : AOp) (w : Nat) (x k : Int)
+    (hx : InRange (.sgn w) (.n x)) (hk : fits (.sgn w) k = true) (hd : isDivOp op → x ≠ 0) :
+    vbin (.ofA op) (inj .int (.n k)) (inj (.sgn w) (.n x))
+      = inj (.sgn (arithVI op w)) (.n (wrapS (arithVI op w) (aop op k x))) := by
+  obtain ⟨hw, hx0, hx1⟩ := hx
+  simp only [fits, Bool.and_eq_true, decide_eq_true_eq] at hk
+  obtain ⟨hk0, hk1⟩ := hk
+  have ex := sInt_enc_id hw hx0 hx1
+  have ek := sInt_enc_id hw hk0 hk1
+  unfold isDivOp at hd
+  cases op <;>
+    simp [inj, vbin, VBin.ofA, arithVecInt, VBin.isDiv, arithVI, dec, nsOp, aop, enc_wrapS,
+      ex, ek, nsDiv_eq, nsRem_eq, nsMod_eq] <;>
+    simp_all
+
+example : fits (.sgn 4) (-8) = true ∧ fits (.uns 4) 15 = true := by decide
+/-- `+`/`-` wrap modulo 2^max(width): documented law -/
+theorem C02.add_wraps_max_width (wa wb : Nat) (x y : Int)
+    (hx : InRange (.uns wa) (.n x)) (hy : InRange (.uns wb) (.n y)) :
+    vbin .add (inj (.uns wa) (.n x)) (inj (.uns wb) (.n y))
+      = inj (.uns (max wa wb)) (.n ((x + y) % 2 ^ (max wa wb))) ∧
+    vbin .sub (inj (.uns wa) (.n x)) (inj (.uns wb) (.n y))
+      = inj (.uns (max wa wb)) (.n ((x - y) % 2 ^ (max wa wb))) := by
+  have h1 := C02.arith_uns_uns .add wa wb x y hx hy (by simp [isDivOp])
+  have h2 := C02.arith_uns_uns .sub wa wb x y hx hy (by simp [isDivOp])
+  exact ⟨h1, h2⟩
+
+/-- `*` has the sum of the widths and never overflows it -/
+theorem C02.mul_width_sum (wa wb : Nat) (x y : Int)
+    (hx : InRange (.uns wa) (.n x)) (hy : InRange (.uns wb) (.n y)) :
+    vbin .mul (inj (.uns wa) (.n x)) (inj (.uns wb) (.n y)) = inj (.uns (wa + wb)) (.n (x * y)) := by
+  have h := C02.arith_uns_uns .mul wa wb x y hx hy (by simp [isDivOp])
+  obtain ⟨_, hx0, hx1⟩ := hx
+  obtain ⟨_, hy0, hy1⟩ := hy
+  have : x * y < 2 ^ (wa + wb) := by
+    rw [pow_add]; exact mul_lt_mul'' hx1 hy1 hx0 hy0
+  simp only [VBin.ofA, arithVV, aop] at h
+  rw [h, wrapU_id (mul_nonneg hx0 hy0) this]
+
+/-- truncating division has the dividend's width, Signed: rounds toward zero, wraps (only -min / -1) -/
+theorem C02.truncdiv_dividend_width (wa wb : Nat) (x y : Int)
+    (hx : InRange (.sgn wa) (.n x)) (hy : InRange (.sgn wb) (.n y)) (hy0 : y ≠ 0) :
+    vbin .div (inj (.sgn wa) (.n x)) (inj (.sgn wb) (.n y)) = inj (.sgn wa) (.n (wrapS wa (Int.tdiv x y))) :=
+  C02.arith_sgn_sgn .div wa wb x y hx hy (fun _ => hy0)
+
+/-- `%` takes the sign of the divisor, `rem` of the dividend; both have the divisor's width -/
+theorem C02.mod_rem_divisor_width (wa wb : Nat) (x y : Int)
+    (hx : InRange (.sgn wa) (.n x)) (hy : InRange (.sgn wb) (.n y)) (hy0 : y ≠ 0) :
+    vbin .mod (inj (.sgn wa) (.n x)) (inj (.sgn wb) (.n y)) = inj (.sgn wb) (.n (wrapS wb (Int.fmod x y))) ∧
+    vbin .rem (inj (.sgn wa) (.n x)) (inj (.sgn wb) (.n y)) = inj (.sgn wb) (.n (wrapS wb (Int.tmod x y))) :=
+  ⟨C02.arith_sgn_sgn .mod wa wb x y hx hy (fun _ => hy0), C02.arith_sgn_sgn .rem wa wb x y hx hy (fun _ => hy0)⟩
+
+example : InRange (.sgn 4) (.n (-7)) ∧ InRange (.sgn 3) (.n 3) ∧ (3 : Int) ≠ 0 := by
+  refine ⟨by simp [InRange], by simp [InRange], by decide⟩
+
+/-- the left operand of `@` forms the most significant bits -/
+theorem C02.concat_left_is_msb (ka kb : VK) (wa wb pa pb : Nat) (hb : pb < 2 ^ wb) :
+    vbin .cat (vconv .slv (.vec ka wa pa)) (vconv .slv (.vec kb wb pb)) = .vec .slv (wa + wb) (pa * 2 ^ wb + pb) ∧
+    (pa * 2 ^ wb + pb) / 2 ^ wb = pa ∧ (pa * 2 ^ wb + pb) % 2 ^ wb = pb := by
+  refine ⟨by simp [vbin, vconv], ?_, ?_⟩
+  · rw [Nat.add_comm, Nat.add_mul_div_right _ _ (Nat.two_pow_pos wb), Nat.div_eq_of_lt hb]; simp
+  · rw [Nat.add_comm, Nat.add_mul_mod_self_right, Nat.mod_eq_of_lt hb]
+
+/-- resize (zero extension for Unsigned, sign extension for Signed) preserves the value -/
+theorem C02.resize_preserves_value (w w' : Nat) (x : Int) (hw : w ≤ w') :
+    (InRange (.uns w) (.n x) → vresizeV (inj (.uns w) (.n x)) w' = inj (.uns w') (.n x)) ∧
+    (InRange (.sgn w) (.n x) → vresizeV (inj (.sgn w) (.n x)) w' = inj (.sgn w') (.n x)) := by
+  constructor
+  · rintro ⟨h1, h0, hlt⟩
+    have hlt' : x < 2 ^ w' := lt_of_lt_of_le hlt (p2mono hw)
+    have e1 := enc_of_range h0 hlt
+    have e2 := enc_of_range h0 hlt'
+    have : enc w x = enc w' x := by exact_mod_cast e1.trans e2.symm
+    have r := vresize_uns hw (enc_lt w x)
+    simp only [inj, vresizeV, r]
+    rw [this]
+  · rintro ⟨h1, h0, hlt⟩
+    have hm : (2 : Int) ^ (w - 1) ≤ 2 ^ (w' - 1) := p2mono (by omega)
+    have key := sInt_vresize h1 hw (enc_lt w x)
+    rw [sInt_enc_id h1 h0 hlt] at key
+    have lt' := vresize_sgn_lt h1 hw (enc_lt w x)
+    have := enc_sInt lt'
+    rw [key] at this
+    simp [inj, vresizeV, this]
+
+
+/-! ### the induction over `Expr` (fragment `Frag`: ports, typed constants, Python ints, all arithmetic
+    operators with every operand-kind pair, resize) -/
+
+/-- C02 on the model, fragment `Frag`: for every expression of the fragment, every width, every operand
+    valuation of the documented domain (no division by zero): the emitted VHDL expression evaluates under
+    numeric_std to the documented value, with the documented type and width, and that value is in range.
+    FULL statement (`C02.lower_correct`): the same without `Frag e`; missing: the induction cases of the other
+    constructors (see the header of this file). -/
+theorem C02.lower_correct_partial (env : Env) (e : Expr) (hF : Frag e) :
+    ∀ t, typeOf e = .ok t → defined e env = true →
+      InRange t (evalSpec e env) ∧ evalV (lower e) env = inj t (evalSpec e env) := by
+  induction hF with
+  | port i t =>
+    intro t' ht _
+    cases t <;> simp [typeOf, ite_ok_iff] at ht
+    · subst ht; simp [evalSpec, readPort, InRange, lower, evalV]
+    · obtain ⟨hw, rfl⟩ := ht
+      refine ⟨?_, by simp [evalSpec, lower, evalV]⟩
+      simp only [evalSpec, readPort, wrap]
+      exact ⟨hw, (wrapU_range _ _).1, (wrapU_range _ _).2⟩
+    · obtain ⟨hw, rfl⟩ := ht
+      refine ⟨?_, by simp [evalSpec, lower, evalV]⟩
+      simp only [evalSpec, readPort, wrap]
+      exact inRange_wrapU hw _
+    · obtain ⟨hw, rfl⟩ := ht
+      refine ⟨?_, by simp [evalSpec, lower, evalV]⟩
+      simp only [evalSpec, readPort, wrap]
+      exact inRange_wrapS hw _
+  | lit t v =>
+    intro t' ht _
+    cases t <;> simp [typeOf, ite_ok_iff] at ht
+    · obtain ⟨_, rfl⟩ := ht
+      simp [evalSpec, InRange, lower, litV, evalV, inj]
+    · obtain ⟨hw, hf, rfl⟩ := ht
+      simp only [fits, Bool.and_eq_true, decide_eq_true_eq] at hf
+      exact ⟨⟨hw, hf.1, hf.2⟩, by simp [evalSpec, lower, litV, evalV, inj, vkOf, Ty.width]⟩
+    · obtain ⟨hw, hf, rfl⟩ := ht
+      simp only [fits, Bool.and_eq_true, decide_eq_true_eq] at hf
+      exact ⟨⟨hw, hf.1, hf.2⟩, by simp [evalSpec, lower, litV, evalV, inj, vkOf, Ty.width]⟩
+    · obtain ⟨hw, hf, rfl⟩ := ht
+      simp only [fits, Bool.and_eq_true, decide_eq_true_eq] at hf
+      exact ⟨⟨hw, hf.1, hf.2⟩, by simp [evalSpec, lower, litV, evalV, inj, vkOf, Ty.width]⟩
+  | intc k =>
+    intro t' ht _
+    simp [typeOf] at ht; subst ht
+    simp [evalSpec, InRange, lower, evalV, inj]
+  | arith op a b _ _ iha ihb =>
+    intro t ht hd
+    simp only [typeOf] at ht
+    cases hta : typeOf a with
+    | error er => simp [hta] at ht
+    | ok ta =>
+    cases htb : typeOf b with
+    | error er => simp [hta, htb] at ht
+    | ok tb =>
+    simp only [hta, htb] at ht
+    simp only [defined, Bool.and_eq_true] at hd
+    obtain ⟨⟨hda, hdb⟩, hdz⟩ := hd
+    obtain ⟨ra, ea⟩ := iha ta hta hda
+    obtain ⟨rb, eb⟩ := ihb tb htb hdb
+    have hty : typeOf (.arith op a b) = .ok t := by simp only [typeOf, hta, htb]; exact ht
+    have hdiv : isDivOp op → (evalSpec b env).num ≠ 0 := by
+      intro h; rcases h with rfl | rfl | rfl <;> simpa using hdz
+    simp only [lower, evalV, ea, eb, evalSpec, hty, tyOr]
+    cases hva : evalSpec a env with
+    | b xa => cases ta <;> cases tb <;> simp_all [arithTy, InRange]
+    | n xa =>
+    cases hvb : evalSpec b env with
+    | b xb => cases ta <;> cases tb <;> simp_all [arithTy, InRange]
+    | n xb =>
+    rw [hva] at ra; rw [hvb] at rb hdiv
+    simp only [Val.num] at hdiv ⊢
+    cases ta <;> cases tb <;> simp only [arithTy] at ht
+    all_goals try (simp at ht; done)
+    · -- uns uns
+      rename_i wa wb
+      cases ht
+      exact ⟨inRange_wrapU (arithVV_pos op ra.1 rb.1) _, C02.arith_uns_uns op wa wb xa xb ra rb hdiv⟩
+    · -- uns int
+      rename_i w
+      cases hib : intVal b with
+      | none => simp [hib] at ht
+      | some k =>
+        simp only [hib, ite_ok_iff] at ht
+        obtain ⟨hf, ht⟩ := ht
+        cases ht
+        have hbk := intVal_some hib
+        subst hbk
+        simp only [evalSpec] at hvb
+        cases hvb
+        exact ⟨inRange_wrapU (arithVI_pos op ra.1) _, C02.arith_uns_int op w xa _ ra hf hdiv⟩
+    · -- sgn sgn
+      rename_i wa wb
+      cases ht
+      exact ⟨inRange_wrapS (arithVV_pos op ra.1 rb.1) _, C02.arith_sgn_sgn op wa wb xa xb ra rb hdiv⟩
+    · -- sgn int
+      rename_i w
+      cases hib : intVal b with
+      | none => simp [hib] at ht
+      | some k =>
+        simp only [hib, ite_ok_iff] at ht
+        obtain ⟨hf, ht⟩ := ht
+        cases ht
+        have hbk := intVal_some hib
+        subst hbk
+        simp only [evalSpec] at hvb
+        cases hvb
+        exact ⟨inRange_wrapS (arithVI_pos op ra.1) _, C02.arith_sgn_int op w xa _ ra hf hdiv⟩
+    · -- int uns
+      rename_i w
+      cases hia : intVal a with
+      | none => simp [hia] at ht
+      | some k =>
+        simp only [hia, ite_ok_iff] at ht
+        obtain ⟨hf, ht⟩ := ht
+        cases ht
+        have hak := intVal_some hia
+        subst hak
+        simp only [evalSpec] at hva
+        cases hva
+        exact ⟨inRange_wrapU (arithVI_pos op rb.1) _, C02.arith_int_uns op w xb _ rb hf hdiv⟩
+    · -- int sgn
+      rename_i w
+      cases hia : intVal a with
+      | none => simp [hia] at ht
+      | some k =>
+        simp only [hia, ite_ok_iff] at ht
+        obtain ⟨hf, ht⟩ := ht
+        cases ht
+        have hak := intVal_some hia
+        subst hak
+        simp only [evalSpec] at hva
+        cases hva
+        exact ⟨inRange_wrapS (arithVI_pos op rb.1) _, C02.arith_int_sgn op w xb _ rb hf hdiv⟩
+  | resize a w _ iha =>
+    intro t ht hd
+    simp only [typeOf] at ht
+    cases hta : typeOf a with
+    | error er => simp [hta] at ht
+    | ok ta =>
+    simp only [hta] at ht
+    simp only [defined] at hd
+    obtain ⟨ra, ea⟩ := iha ta hta hd
+    cases hva : evalSpec a env with
+    | b xa => cases ta <;> simp_all [InRange]
+    | n xa =>
+    rw [hva] at ra
+    cases ta <;> simp only [ite_ok_iff] at ht
+    all_goals try (simp at ht; done)
+    · rename_i wa
+      obtain ⟨hle, ht⟩ := ht; cases ht
+      have hr := (C02.resize_preserves_value wa w xa hle).1 ra
+      have hs : evalSpec (.resize a w) env = .n xa := by simp [evalSpec, hva, Val.num]
+      rw [hs]
+      refine ⟨⟨le_trans ra.1 hle, ra.2.1, lt_of_lt_of_le ra.2.2 (p2mono hle)⟩, ?_⟩
+      simp only [lower, hta, tyOr, Ty.width]
+      split
+      · rename_i heq; subst heq; rw [ea, hva]
+      · simp only [evalV, ea, hva]; exact hr
+    · rename_i wa
+      obtain ⟨hle, ht⟩ := ht; cases ht
+      have hr := (C02.resize_preserves_value wa w xa hle).2 ra
+      have hm : (2 : Int) ^ (wa - 1) ≤ 2 ^ (w - 1) := p2mono (by omega)
+      have hs : evalSpec (.resize a w) env = .n xa := by simp [evalSpec, hva, Val.num]
+      rw [hs]
+      refine ⟨⟨le_trans ra.1 hle, by linarith [ra.2.1], lt_of_lt_of_le ra.2.2 hm⟩, ?_⟩
+      simp only [lower, hta, tyOr, Ty.width]
+      split
+      · rename_i heq; subst heq; rw [ea, hva]
+      · simp only [evalV, ea, hva]; exact hr
+
+
+/-- result type and width of the emitted expression are the documented ones (fragment) -/
+theorem C02.lower_type_partial (env : Env) (e : Expr) (hF : Frag e) (t : Ty)
+    (ht : typeOf e = .ok t) (hd : defined e env = true) :
+    ∃ v, InRange t v ∧ evalV (lower e) env = inj t v :=
+  ⟨evalSpec e env, C02.lower_correct_partial env e hF t ht hd⟩
+
+/-- non-vacuity: `(p0 - 3) * p1 rem ...` style instance - a well-typed, defined expression of the fragment -/
+example : Frag (.arith .mul (.arith .sub (.port 0 (.sgn 4)) (.intc 3)) (.resize (.port 1 (.sgn 2)) 3)) ∧
+    typeOf (.arith .mul (.arith .sub (.port 0 (.sgn 4)) (.intc 3)) (.resize (.port 1 (.sgn 2)) 3)) = .ok (.sgn 7) ∧
+    defined (.arith .mul (.arith .sub (.port 0 (.sgn 4)) (.intc 3)) (.resize (.port 1 (.sgn 2)) 3)) [-8, -2] = true := by
+  refine ⟨.arith _ _ _ (.arith _ _ _ (.port _ _) (.intc _)) (.resize _ _ (.port _ _)), by decide, by decide⟩
+
+/-! ### shifts -/
+
+/-- `>>` is a logical shift for Unsigned (zeros enter on the left: floor division by 2^n), and for Signed
+    operands with the sign bit clear.  FULL statement (`C02.shr_logical_unsigned_arith_signed`): additionally,
+    for negative Signed `x`, `vshiftR (inj (.sgn w) (.n x)) (.int n) = inj (.sgn w) (.n (x / 2 ^ n))` (sign bits
+    enter on the left = floor division of the negative value); that case is not proved here - it is
+    evaluated by the model driver on every explored valuation (matrix of the check: all values of widths <= 4,
+    shift amounts 0 .. w+1). -/
+theorem C02.shr_logical_unsigned_arith_signed_partial (w n : Nat) (x : Int) :
+    (InRange (.uns w) (.n x) → vshiftR (inj (.uns w) (.n x)) (.int n) = inj (.uns w) (.n (x / 2 ^ n))) ∧
+    (InRange (.sgn w) (.n x) → 0 ≤ x → vshiftR (inj (.sgn w) (.n x)) (.int n) = inj (.sgn w) (.n (x / 2 ^ n))) := by
+  constructor
+  · rintro ⟨_, h0, h1⟩
+    simp [inj, vshiftR, enc_shr_nonneg h0 h1]
+  · rintro ⟨hw, _, h1⟩ h0
+    have hh := p2half hw
+    have h1' : x < 2 ^ w := by linarith [p2pos (w - 1)]
+    have e1 := enc_of_range h0 h1'
+    have hlt : enc w x < 2 ^ (w - 1) := by
+      have : ((enc w x : Nat) : Int) < 2 ^ (w - 1) := by rw [e1]; exact h1
+      exact_mod_cast this
+    simp [inj, vshiftR, hlt, enc_shr_nonneg h0 h1']
+
+example : InRange (.sgn 4) (.n 5) ∧ (0 : Int) ≤ 5 := by simp [InRange]
+
+/-- `<<` drops the bits shifted out on the left: multiplication by 2^n modulo 2^width (Unsigned) -/
+theorem C02.shl_wraps (w n : Nat) (x : Int) (hx : InRange (.uns w) (.n x)) :
+    vshiftL (inj (.uns w) (.n x)) (.int n) = inj (.uns w) (.n (wrapU w (x * 2 ^ n))) := by
+  obtain ⟨_, h0, h1⟩ := hx
+  have e1 := enc_of_range h0 h1
+  have : (enc w x * 2 ^ n) % 2 ^ w = enc w (x * 2 ^ n) := by
+    have : (((enc w x * 2 ^ n) % 2 ^ w : Nat) : Int) = ((enc w (x * 2 ^ n) : Nat) : Int) := by
+      rw [enc_cast]; push_cast; rw [e1]
+    exact_mod_cast this
+  simp [inj, vshiftL, this, enc_wrapU]
